@@ -151,6 +151,42 @@ def submitted_futures_are_tracked_and_tagged(ctx):
     ctx.ob(adc, 'the registered wrapper calls fn()', ok, 'the callback itself must run')
 
 
+# who may hand work to an executor directly (function -> receiver text): everything else goes through
+# TransferCoordinator.submit, which is what records the future as belonging to the transfer
+DIRECT_SUBMITTERS = {
+    'futures.TransferCoordinator.submit': 'the tracked front door itself',
+    'futures.BoundedExecutor.submit': 'the facade over the pool',
+    'manager.TransferManager._submit_transfer': 'the submission task: it is the root of the transfer, and its own failure path is what waits for the tracked futures',
+}
+TASK_MODULES = ('copies', 'delete', 'download', 'upload', 'manager', 'tasks', 'futures', 'utils', 'bandwidth', 'subscribers')
+
+
+@rule('C04.j', ['C04', 'C05', 'C08', 'C10'], floor=10)
+def every_task_goes_through_the_coordinator(ctx):
+    """In the transfer-manager modules every `.submit(` of work is
+    `self._transfer_coordinator.submit(executor, task, tag)` (resolved to
+    TransferCoordinator.submit), except the three functions of DIRECT_SUBMITTERS.  A task
+    handed straight to an executor runs, but its future is not associated with the transfer:
+    the submission error path does not wait for it, so cleanups (the abort), on_done and the
+    release of the transfer's slot can happen while its request is still in flight."""
+    n = 0
+    for f, c, r in q.call_index(ctx):
+        if not (isinstance(c.func, ast.Attribute) and c.func.attr == 'submit') or f.module.name not in TASK_MODULES:
+            continue
+        n += 1
+        if f.qualname in DIRECT_SUBMITTERS:
+            ctx.ob(f, c, True, DIRECT_SUBMITTERS[f.qualname], trivial=True)
+            if f.qualname == 'manager.TransferManager._submit_transfer':
+                ctx.ob(f, f'submission tasks go to self._submission_executor ({norm(c.func.value)})', norm(q.resolve_local(f, c.func.value)) == 'self._submission_executor',
+                       'a submission task that runs on the executor it submits to holds one of that stage\'s threads and slots while it waits for another: with a '
+                       '1-slot or 1-thread request stage (or as many submitting transfers as threads) nothing can ever run')
+            continue
+        ok = r.kind == 'package' and [t.qualname for t in r.targets] == [f'{COORD}.submit']
+        ctx.ob(f, c, ok, f'{norm(c.func)}(...) hands work to an executor without TransferCoordinator.submit: the future is not associated with the '
+                         'transfer, so nothing that waits for "all requests of this transfer" waits for it')
+    ctx.need(n >= 10, f'only {n} submit sites found')
+
+
 @rule('C08.f', ['C08', 'C14'], floor=3)
 def provided_size_is_the_size(ctx):
     """TransferMeta.provide_transfer_size stores its argument where .size reads it; call_args /
